@@ -553,7 +553,17 @@ impl EpisodeState {
         if self.focus == 4 && self.tape.chance(700) {
             // the settings dialog: walk its tabs and items to their ends, edit the column list
             if !app.show_settings {
-                return [Cmd::SettingsTab(6), Cmd::SettingsTab(6), Cmd::ToggleSettings, Cmd::SettingsTab(0), Cmd::SettingsTab(3)][self.tape.pick(5)];
+                return [
+                    Cmd::SettingsTab(6),
+                    Cmd::SettingsTab(6),
+                    Cmd::ToggleSettings,
+                    Cmd::SettingsTab(0),
+                    Cmd::SettingsTab(1),
+                    Cmd::SettingsTab(2),
+                    Cmd::SettingsTab(3),
+                    Cmd::SettingsTab(4),
+                    Cmd::SettingsTab(5),
+                ][self.tape.pick(9)];
             }
             // mostly down, so that the last items of a long list are reached; the column
             // list is edited (move up / down, toggle) wherever the cursor is
@@ -565,7 +575,7 @@ impl EpisodeState {
                 4 => Cmd::PreviousHop,
                 5 => Cmd::NextTrace,
                 6 => Cmd::PreviousTrace,
-                _ => Cmd::SettingsTab(6),
+                _ => Cmd::SettingsTab([6u8, 6, 0, 1, 2, 3, 4, 5][self.tape.pick(8)]),
             };
         }
         let boosted: &[Cmd] = match self.focus {
@@ -601,6 +611,10 @@ impl EpisodeState {
             (Cmd::SettingsTab(0), 1),
             (Cmd::SettingsTab(3), 1),
             (Cmd::SettingsTab(6), 2),
+            (Cmd::SettingsTab(1), 1),
+            (Cmd::SettingsTab(2), 1),
+            (Cmd::SettingsTab(4), 1),
+            (Cmd::SettingsTab(5), 1),
             (Cmd::ExpandPrivacy, 9),
             (Cmd::ContractPrivacy, 5),
             (Cmd::ExpandHosts, 3),
@@ -675,6 +689,13 @@ impl FrameHook for EpisodeState {
         }
         if app.selected_hop_address > 0 {
             self.counters.add("reach.second_address_selected", 1);
+        }
+        if app.show_settings {
+            self.counters.add(&format!("frames.settings_tab.{}", app.settings_tab_selected), 1);
+            // far down the tab's list
+            if app.setting_table_state.selected().is_some_and(|i| i >= 8) {
+                self.counters.add(&format!("reach.settings_tab_{}_item_8_or_beyond", app.settings_tab_selected), 1);
+            }
         }
         if app.show_settings && app.settings_tab_selected == 6 {
             self.counters.add("reach.columns_tab_frame", 1);
